@@ -150,6 +150,8 @@ pub struct Decoded {
     pub covered: Vec<bool>,
     pub all_sums_ok: bool,
     pub tables: Vec<String>,
+    /// the TransactionId entry of the allocator-state table found under the walked slot's system tree
+    pub alloc_txid: Option<u64>,
 }
 
 /// Model pointer: the on-disk page number followed by the context that determines how the page is
@@ -439,7 +441,13 @@ impl Walk<'_> {
                 for (i, (s, e)) in leaf.vals.iter().enumerate() {
                     let v = &p[*s..*e];
                     match vk {
-                        ValKind::Plain => self.d.mark(off + s, e - s, &format!("{kind}/value"), cov),
+                        ValKind::Plain => {
+                            self.d.mark(off + s, e - s, &format!("{kind}/value"), cov);
+                            // AllocatorStateKey::TransactionId = tag 5; value = u64 le
+                            if label == "sys:allocator_state" && !self.savepoint_only && v.len() == 8 && p.get(leaf.keys[i].0) == Some(&5) {
+                                self.d.alloc_txid = Some(u64::from_le_bytes(v.try_into().unwrap()));
+                            }
+                        }
                         ValKind::Defs => {
                             let name = String::from_utf8_lossy(&p[leaf.keys[i].0..leaf.keys[i].1]).to_string();
                             self.d.mark(off + s, e - s, &format!("{kind}/def.typenames"), cov);
@@ -617,6 +625,7 @@ pub fn decode_with(b: &[u8], page_size: usize, slot: Option<usize>, lenient: boo
         covered: if classify { vec![false; b.len()] } else { vec![] },
         all_sums_ok: true,
         tables: vec![],
+        alloc_txid: None,
     };
     d.mark(0, b.len(), "unreachable-or-free-page", false);
     d.mark(0, 9, "hdr.magic", true);
@@ -670,11 +679,13 @@ pub fn decode_with(b: &[u8], page_size: usize, slot: Option<usize>, lenient: boo
 /// Both slots are walked (leniently: a page that does not decode is absent, i.e. `img p = None`).
 pub fn export_forest(b: &[u8], page_size: usize) -> R<String> {
     use std::fmt::Write as _;
+    let fline = export_file_line(b, page_size);
     let hexs = |x: &[u8]| -> String { if x.is_empty() { "-".to_string() } else { x.iter().map(|c| format!("{c:02x}")).collect() } };
     let sumhex = |s: u128| -> String { hexs(&s.to_le_bytes()) };
     let d0 = decode_with(b, page_size, Some(0), true, false)?;
     let d1 = decode_with(b, page_size, Some(1), true, false)?;
     let mut s = String::new();
+    s.push_str(&fline);
     writeln!(s, "G {} {}", u8::from(d0.god & 4 != 0), d0.god & 1).unwrap();
     for (i, sl_) in d0.slots.iter().enumerate() {
         let raw = &b[sl_.base..sl_.base + SLOT_SIZE];
@@ -712,4 +723,41 @@ pub fn export_forest(b: &[u8], page_size: usize) -> R<String> {
         ).unwrap();
     }
     Ok(s)
+}
+
+/// The facts of coq/Integrity/Verdict.v's `file` record that do not need the forest, read from the raw
+/// bytes (works for any length):
+///   F <len hex> <magic 0|1> <rr 0|1> <page size hex> <region header pages hex> <region max pages hex>
+///     <full regions hex> <trailing pages hex> <both slot versions = 3: 0|1> <forest 0|1>
+///     <loaded 0|1> <counted slot0 0|1> <counted slot1 0|1>
+/// loaded = the TWO_PHASE_COMMIT flag is set and the primary slot's system tree holds an allocator-state
+/// table whose TransactionId entry is the primary slot's transaction id (`get_allocator_state_table`);
+/// counted i = the table lengths stored in slot i's roots equal the number of table definitions the
+/// reader finds in its master trees (what `rebuild_allocator_state` recounts).
+pub fn export_file_line(b: &[u8], page_size: usize) -> String {
+    let g = |off: usize| -> u64 { if b.len() >= off + 4 { u32::from_le_bytes(b[off..off + 4].try_into().unwrap()) as u64 } else { 0 } };
+    let magic = b.len() >= 9 && b[..9] == [b'r', b'e', b'd', b'b', 0x1A, 0x0A, 0xA9, 0x0D, 0x0A];
+    let god = if b.len() > 9 { b[9] } else { 0 };
+    let vers = b.len() >= SLOT1 + 1 && b[SLOT0] == 3 && b[SLOT1] == 3;
+    let mut forest = false;
+    let mut loaded = false;
+    let mut counted = [false, false];
+    let ds = [decode_with(b, page_size, Some(0), true, false), decode_with(b, page_size, Some(1), true, false)];
+    if let [Ok(d0), Ok(d1)] = &ds {
+        forest = true;
+        let prim = (god & 1) as usize;
+        let dp = if prim == 0 { d0 } else { d1 };
+        loaded = god & 4 != 0 && dp.alloc_txid == Some(dp.slots[prim].txid);
+        for (i, d) in [d0, d1].into_iter().enumerate() {
+            let n_user = d.tables.iter().filter(|t| t.starts_with("data-master:")).count() as u64;
+            let n_sys = d.tables.iter().filter(|t| t.starts_with("sys-master:")).count() as u64;
+            let s = &d.slots[i];
+            counted[i] = s.user.map(|r| r.len).unwrap_or(0) == n_user && s.system.map(|r| r.len).unwrap_or(0) == n_sys;
+        }
+    }
+    format!(
+        "F {:x} {} {} {:x} {:x} {:x} {:x} {:x} {} {} {} {} {}\n",
+        b.len(), u8::from(magic), u8::from(god & 2 != 0), g(12), g(16), g(20), g(24), g(28), u8::from(vers),
+        u8::from(forest), u8::from(loaded), u8::from(counted[0]), u8::from(counted[1])
+    )
 }
